@@ -44,7 +44,7 @@ def _args(argv):
 
 
 def _replay_case(mod, case):
-    out = mod.check(core.jdec(case))
+    out = core.run_with_history(core.jdec(case), mod.check)
     return list(out.viol)
 
 
